@@ -734,6 +734,133 @@ pub fn execute(case: &IterCase, ctx: &mut Ctx) -> Verdict {
     Ok(())
 }
 
+
+// ---------------------------------------------------------------------------------------------
+// zero-sized element types: only Some/None, item lengths and the length reports are observable,
+// and they must be exactly those of the ideal sequence (pointer-based iteration breaks here first)
+
+fn zst_drive<Y, I>(mut it: I, case: &IterCase, total: usize, item_len: Option<usize>, len_of: &dyn Fn(&Y) -> usize, kind: IterKind) -> Verdict
+where
+    I: Iterator<Item = Y> + DoubleEndedIterator + ExactSizeIterator,
+{
+    let mut left = total;
+    let stride = 1usize; // jumps are resolved against the remaining length only
+    let _ = stride;
+    let check = |g: &Option<Y>, want: bool, what: &str| -> Verdict {
+        ensure!(g.is_some() == want, format!("{:?}/zst/{}", kind, what), "{:?} over a zero-sized element type, {}: returned {} but the ideal sequence gives {}", kind, what, if g.is_some() { "Some" } else { "None" }, if want { "Some" } else { "None" });
+        if let (Some(y), Some(l)) = (g.as_ref(), item_len) {
+            ensure!(len_of(y) == l, format!("{:?}/zst/item-len", kind), "{:?} over a zero-sized element type, {}: row of length {} instead of {}", kind, what, len_of(y), l);
+        }
+        Ok(())
+    };
+    for (si, step) in case.script.iter().enumerate() {
+        let what = format!("step {} {:?}", si, step);
+        let resolve = |n: N| -> usize {
+            match n {
+                N::Zero => 0,
+                N::Frac(f) => if left == 0 { 0 } else { (f as usize * left) >> 16 },
+                N::Lm1 => left.saturating_sub(1),
+                N::L => left,
+                N::Lp1 => left + 1,
+                N::Max => usize::MAX,
+                N::HalfMaxP1 => usize::MAX / 2 + 1,
+                N::Wrap(j, d) => (u64::MAX / (j.max(1) as u64 + 1)) as usize + d as usize,
+                N::Rem(d) => d as usize,
+                N::RemRows(m, k) => m as usize * 3 + k as usize,
+                N::Lit(k) => k as usize,
+            }
+        };
+        match *step {
+            Step::Next => {
+                let g = it.next();
+                check(&g, left > 0, &what)?;
+                left = left.saturating_sub(1);
+            }
+            Step::NextBack => {
+                let g = it.next_back();
+                check(&g, left > 0, &what)?;
+                left = left.saturating_sub(1);
+            }
+            Step::Nth(n) | Step::NthBack(n) => {
+                let nn = resolve(n);
+                let g = if matches!(step, Step::Nth(_)) { it.nth(nn) } else { it.nth_back(nn) };
+                check(&g, nn < left, &format!("{} (n={})", what, nn))?;
+                left = if nn < left { left - nn - 1 } else { 0 };
+            }
+            Step::Len | Step::SizeHint => {
+                ensure!(it.len() == left && it.size_hint() == (left, Some(left)), format!("{:?}/zst/len", kind), "{:?} over a zero-sized element type, {}: len() {} / size_hint() {:?} but {} items remain", kind, what, it.len(), it.size_hint(), left);
+            }
+            _ => {}
+        }
+    }
+    match case.end {
+        Some(Terminal::Count) | None => {
+            let n = it.count();
+            ensure!(n == left, format!("{:?}/zst/count", kind), "{:?} over a zero-sized element type: count() {} but {} items remain", kind, n, left);
+        }
+        Some(Terminal::Last) => {
+            let g = it.last();
+            check(&g, left > 0, "last()")?;
+        }
+        Some(Terminal::Fold) | Some(Terminal::ForEach) => {
+            let n = it.fold(0usize, |a, _| a + 1);
+            ensure!(n == left, format!("{:?}/zst/fold", kind), "{:?} over a zero-sized element type: fold visited {} items but {} remain", kind, n, left);
+        }
+        Some(Terminal::RFold) | Some(Terminal::CollectRev) => {
+            let n = it.rfold(0usize, |a, _| a + 1);
+            ensure!(n == left, format!("{:?}/zst/rfold", kind), "{:?} over a zero-sized element type: rfold visited {} items but {} remain", kind, n, left);
+        }
+    }
+    Ok(())
+}
+
+fn zst_on<X: TooDeeOpsMut<()>>(x: &mut X, case: &IterCase) -> Verdict {
+    let (c, r) = (x.num_cols(), x.num_rows());
+    let col = case.col as usize;
+    let k = case.kind;
+    match k {
+        IterKind::Rows => zst_drive(x.rows(), case, r, Some(c), &|y: &&[()]| y.len(), k),
+        IterKind::RowsMut => zst_drive(x.rows_mut(), case, r, Some(c), &|y: &&mut [()]| y.len(), k),
+        IterKind::Col | IterKind::ColMut => {
+            if col >= c {
+                let res = catch(|| if k == IterKind::Col { x.col(col).len() } else { x.col_mut(col).len() });
+                ensure!(res.is_err(), format!("{:?}/zst/col-out-of-range-accepted", k), "{:?}: col({}) on a {}x{} array of a zero-sized type must panic", k, col, c, r);
+                return Ok(());
+            }
+            if k == IterKind::Col {
+                zst_drive(x.col(col), case, r, None, &|_y: &&()| 1, k)
+            } else {
+                zst_drive(x.col_mut(col), case, r, None, &|_y: &&mut ()| 1, k)
+            }
+        }
+        IterKind::Cells | IterKind::IntoIterRef => zst_drive(x.cells(), case, c * r, None, &|_y: &&()| 1, k),
+        IterKind::CellsMut | IterKind::IntoIterMut => zst_drive(x.cells_mut(), case, c * r, None, &|_y: &&mut ()| 1, k),
+    }
+}
+
+/// the same script on an array / window of a zero-sized element type
+pub fn zst_companion(case: &IterCase) -> Verdict {
+    let (cols, rows) = (case.cols as usize, case.rows as usize);
+    let rv = match case.recv {
+        IRecv::M(rv) => rv,
+        IRecv::View(m) => Recv::view(m),
+        IRecv::NestedView(m, m2) | IRecv::ViewOfViewMut(m, m2) => Recv::nested(m, m2),
+        IRecv::Slice(_) => Recv::owned(),
+    };
+    let l = layout(cols, rows, &rv);
+    let mut parent: TooDee<()> = if l.pc == 0 { TooDee::default() } else { TooDee::init(l.pc, l.pr, ()) };
+    match rv.kind {
+        RecvKind::Owned | RecvKind::Thin => zst_on(&mut parent, case),
+        RecvKind::SliceMut => zst_on(&mut TooDeeViewMut::new(l.c, l.r, parent.data_mut()), case),
+        RecvKind::ViewMut | RecvKind::ThinView => zst_on(&mut parent.view_mut(l.s1, l.e1), case),
+        RecvKind::Nested => {
+            let mut v1 = parent.view_mut(l.s1, l.e1);
+            let mut v2 = v1.view_mut(l.s2, l.e2);
+            zst_on(&mut v2, case)
+        }
+    }
+}
+
 // ---------------------------------------------------------------------------------------------
 // strategies / enumerations
 
@@ -989,7 +1116,13 @@ macro_rules! iter_prop {
                 if tier == Tier::Quick { 800_000 } else { 12_000_000 }
             }
             fn execute(k: &IterCase, ctx: &mut Ctx) -> Verdict {
-                execute(k, ctx)
+                execute(k, ctx)?;
+                // every fourth case also runs on a zero-sized element type
+                if (k.script.len() + k.cols as usize + k.rows as usize) % 4 == 0 {
+                    zst_companion(k)?;
+                    ctx.class("zero-sized-companion");
+                }
+                Ok(())
             }
             fn fuzz_sanitize(k: &mut IterCase) -> bool {
                 sanitize(k, $kinds)
